@@ -69,6 +69,7 @@ RULE = (
     "nested text:span or a row in as many nested table:table-row-group, read by path. Oracle: only InterfaceError may escape Cid.read, only DataError (and "
     "subclasses) the data stages, main never returns 4. A case is non-trivial when a cutplace error was reached or "
     "the CID loaded with a changed parse; distinct by its JSON."
+    "ODS repeat counts that are no counts (not huge ones) as attribute faults."
 )
 ASSUMPTIONS = [
     "OSError for unreadable paths is not provoked: every path given to cutplace exists and is a readable regular file",
